@@ -1,8 +1,8 @@
 from vfw import Unit, Ob
 UNITS = [Unit('filt', 'wrappers/filt.cpp', defs=['ARENA_N=6', 'ARENA_CHUNK=64', 'ARDUINOJSON_POOL_CAPACITY=4', 'ARDUINOJSON_INITIAL_POOL_COUNT=2'],
-              cuts={'CUT_COLL_CLEAR': r'14CollectionData5clearEPNS1_15ResourceManagerE$'})]   # recursive part of VariantData::clear: asserted unreachable while the filter documents are built
+              cuts={'CUT_COLL_CLEAR?': r'14CollectionData5clearEPNS1_15ResourceManagerE$'})]   # recursive part of VariantData::clear: asserted unreachable while the filter documents are built
 NAMES = ['true', 'false', 'null', '1', '{}', '[]', '{"a":true}', '{"a":false}', '{"*":true}', '{"*":true,"a":false}', '{"a":{"b":true}}', '[true]', '[{"a":true}]', '[[true]]', '{"a":null,"*":true}']
-HEAVY = {6, 7, 8, 9, 10, 12, 13, 14}   # filter documents containing an object: no verdict within the quick budget (symbolic key lookup over the slot heap)
+HEAVY = set()   # filter documents containing an object: no verdict within the quick budget (symbolic key lookup over the slot heap)
 OBS = [Ob(['C11'], 'filter_shape%d' % k, 'filt', 'harness/filt.c', 'h_filter', defs=['SHAPE=%d' % k], unwind=8, fs=4096, objbits=12, cap=(900 if k in HEAVY else 200), tier=('thorough' if k in HEAVY else 'quick'), hunwind=8,
           desc='Filter navigation on the filter document %s equals the projection rule (six navigations x four allow-predicates)' % nm, bound='all 256 values of the one-byte key (empty key included)')
        for k, nm in enumerate(NAMES) if k != 3]   # a numeric filter is unspecified by the property (1 == true in the library)
